@@ -61,7 +61,7 @@ def who_may_call(analysis: Analysis, res: RuleResult) -> None:
                 continue
             fn = common.func_of_node(analysis, mod, node)
             counts[pat] += 1
-            ok = fn in WHO_MAY_CALL[pat]
+            ok = common.owned_by(analysis, fn, WHO_MAY_CALL[pat])
             res.add("C04-R1" if pat != ".update_child_value(" else "C04-R2", f"{fn} / call {pat.strip('.(')}", ok, common.where(analysis, mod, node), "call site is one of the functions the statement allows to create / write this state" if ok else f"{pat.strip('.(')} is called from {fn}: nodes/children/values may appear through a path the protocol does not allow")
     for pat, n in counts.items():
         if n < MIN_SITES[pat]:
